@@ -174,7 +174,8 @@ class C17(Prop):
         "p:none", "p:suspicious", "p:confirmed", "p:critical", "p:anergic", "p:s2-cross", "p:stored",
         "p:stored-pruned", "p:cond-raised", "d:peptide", "d:short", "d:evicted", "d:canary",
         "m:pruned-old", "m:prune-kept", "m:imported", "m:import-full", "m:reimport", "m:roundtrip",
-        "m:forgot", "m:forgot-nothing", "m:recall-hit", "m:recall-miss", "d:cleared", "k:health", "k:cell", "k:stats", "k:export", "k:repr", "k:agents", "k:tpeek",
+        "m:forgot", "m:forgot-nothing", "m:recall-hit", "m:recall-miss", "d:cleared",
+        "e:sysdef", "e:rreg", "e:creg", "e:cexec", "e:cexec-failed", "e:cexec-unregistered", "e:unregistered", "k:health", "k:cell", "k:stats", "k:export", "k:repr", "k:agents", "k:tpeek",
     ]
     assumptions = [
         "fingerprint hashes are compared as opaque values (md5 prefixes treated as injective on the strings explored)",
@@ -512,6 +513,14 @@ class C17(Prop):
                                             memory=self.MEM.ImmuneMemory(capacity=1000))
             return st["ims"]
 
+        def cell(bind=False):
+            if st["cell"] is None:
+                from operon_ai.cell import IntegratedCell
+                st["cell"] = IntegratedCell()
+            if bind:
+                st["cell"].surveillance = ims()        # public attribute: the cell watches this immune system
+            return st["cell"]
+
         def tstep(fn):
             if st["tc"] is None:
                 return "no-tcell"
@@ -594,6 +603,52 @@ class C17(Prop):
                         treg=TR.RegulatoryTCell(rules=self.mk_rules(t[6:]), stability_threshold=int(t[4])),
                         memory=self.MEM.ImmuneMemory(capacity=int(t[5])))
                     o = "ok"
+                elif op == "sysdef" and len(t) == 1:
+                    st["ims"] = IS.ImmuneSystem()                 # every component default-constructed
+                    o = "ok"
+                elif op == "sysw" and len(t) == 3:
+                    ims().window_size, ims().min_observations = int(t[1]), int(t[2])     # read by register_agent
+                    o = "ok"
+                elif op == "rreg" and len(t) == 2:
+                    ims().register_agent(f"a{int(t[1])}")        # the display register_agent creates is kept
+                    o = "ok"
+                elif op == "creg" and len(t) == 2:
+                    cell(True).register_agent(f"a{int(t[1])}")   # through the wrapper that owns the immune system
+                    o = "ok"
+                elif op == "cexec" and len(t) == 9:
+                    a = f"a{int(t[1])}"
+                    d = ims().displays.get(a)
+                    if d is not None and not isinstance(d, self.DISP.MHCDisplay):
+                        o = "no-display"
+                    else:
+                        words = set_parse(t[4])
+                        fail = t[2] == "fail"
+                        text = None if fail else render(t[2], int(t[3]), words)
+                        if text:
+                            import re as _re
+                            got = {w for w in _re.findall(r"[a-z0-9]+", text.lower())}
+                            want = {("1" if w == WORD_ONE else WORDS[w]) for w in words}
+                            if got != want or len(text) != int(t[5]):
+                                raise Infra(f"cexec line does not describe its rendering: {line!r} -> {text!r}")
+
+                        def work():
+                            if fail:
+                                raise RuntimeError("work failed")
+                            return text
+                        import time as _time
+                        real_time = _time.time
+                        _time.time = lambda: 1_000_000.0           # the wall clock stands still: response_time = 0.0
+                        try:
+                            st["nexec"] = st.get("nexec", 0) + 1
+                            res = cell(True).execute(a, f"op{st['nexec']}", work)
+                        finally:
+                            _time.time = real_time
+                        if d is None:
+                            o = "ok unrecorded" if res.success else "failed unrecorded"
+                        elif fail:
+                            o = ("failed" if not res.success else "ok") + f" n={len(d.observations)}"
+                        else:
+                            o = ("ok" if res.success else "failed") + f" n={len(d.observations)}"
                 elif op == "reg" and len(t) == 2:
                     a = f"a{int(t[1])}"
                     ims().register_agent(a)
@@ -607,7 +662,10 @@ class C17(Prop):
                 elif op == "obs" and len(t) == 12:
                     a = f"a{int(t[1])}"
                     d = ims().displays.get(a)
-                    if not isinstance(d, self.DISP.MHCDisplay):
+                    if d is None:                                  # never registered: the real entry point answers
+                        ims().record_observation(a, "x", float(F(t[6])), float(F(t[7])), None)
+                        o = "ok unregistered"
+                    elif not isinstance(d, self.DISP.MHCDisplay):
                         o = "no-display"
                     else:
                         words = set_parse(t[4])
@@ -625,7 +683,10 @@ class C17(Prop):
                 elif op == "canary" and len(t) == 3:
                     a = f"a{int(t[1])}"
                     d = ims().displays.get(a)
-                    if not isinstance(d, self.DISP.MHCDisplay):
+                    if d is None:
+                        ims().record_canary_result(a, t[2] == "1")
+                        o = "ok unregistered"
+                    elif not isinstance(d, self.DISP.MHCDisplay):
                         o = "no-display"
                     else:
                         ims().record_canary_result(a, t[2] == "1")
@@ -892,8 +953,8 @@ class C17(Prop):
                 f = o.split()
                 supp, orig, mod = f[0] == "1", f[1], f[2]
                 out += self._treg_clauses(idx, ex["level"], ex["action"], supp, orig, mod, by_rule=not ex["shortcut"])
-            elif op in ("reg", "show", "dreg", "obs", "canary", "dclear"):
-                if o.startswith("ok"):
+            elif op in ("reg", "show", "dreg", "obs", "canary", "dclear", "rreg", "creg", "cexec"):
+                if o.startswith("ok") and len(t) > 1:
                     fresh_trained[int(t[1])] = False
             elif op == "train" and ex:
                 a = ex["agent"]
@@ -1551,13 +1612,31 @@ class C17(Prop):
         lines = [" ".join(["sys", str(mn), show_rat(tol), "1/2", str(stab), str(cap)] + rules)]
         a = rng.choice([0, 1])
         ws, mo = rng.choice([20, 12, 6, 3]), rng.choice([10, 5, 3, 1])
-        lines.append(f"dreg {a} {ws} {mo}")
+        # how the agent comes under surveillance: a display installed by hand, `register_agent` itself (the display it
+        # builds from the system's window_size / min_observations), or the IntegratedCell wrapper
+        entry = rng.choice(["dreg", "dreg", "dreg", "rreg", "creg"])
+        if entry != "dreg":
+            if rng.random() < 0.5:
+                lines, mn, tol = ["sysdef"], 10, F(2)               # ImmuneSystem(): every default
+            if rng.random() < 0.6:
+                lines.append(f"sysw {ws} {mo}")
+            else:
+                ws, mo = 100, 10                                      # the defaults
+            if rng.random() < 0.15:                                   # before the agent is registered
+                lines.append(rng.choice([f"obs {a} text 4 0 5 1/2 3/4 - 0 0 0", f"cexec {a} text 4 0 5 0 0 0",
+                                         f"canary {a} 1", f"cexec {a} fail 4 - 0 0 0 0"]))
+            lines.append(f"{entry} {a}")
+        else:
+            lines.append(f"dreg {a} {ws} {mo}")
+        via_cell = entry == "creg" and rng.random() < 0.8           # observations arrive through IntegratedCell.execute
         win, canaries = [], []          # generator's own view of the window: (len, time, conf, err, words, struct, has)
         base_struct = rng.choice([S_PLAIN, S_PLAIN, S_JSON, S_BULLET, S_NUM, S_MD])
         base_words = rng.sample(range(8), rng.choice([1, 2, 3]))
         sc = pick_scale(rng)             # the scale the agent's confidences / latencies are recorded on
         base_time = F(rng.choice([2, 4, 8]), 4) * sc[3]
         base_conf = F(rng.choice([48, 56, 60]), 64) * sc[1] + sc[2]
+        if via_cell:
+            base_time, base_conf = F(0), F(1)          # what execute() records with the clock frozen: 0.0 s, tag confidence 1.0
         trained = None                  # (profile, fingerprint) the generator believes the agent was trained on
 
         def sdev(vals):
@@ -1596,7 +1675,7 @@ class C17(Prop):
             elif kind == "emptyerr":
                 err = "empty"
             else:
-                tm = base_time + F(rng.choice([0, 0, 1, -1]), 64) * sc[3]
+                tm = base_time + (F(0) if via_cell else F(rng.choice([0, 0, 1, -1]), 64) * sc[3])
             wl = [w for w in words for _ in range(reps)]
             if struct == S_NUM and out == "text":
                 wl = wl + [WORD_ONE]
@@ -1607,8 +1686,14 @@ class C17(Prop):
             if len(win) > ws:
                 win.pop(0)
             sds = (sdev([o[0] for o in win]), sdev([o[1] for o in win]), sdev([o[2] for o in win]))
-            lines.append(" ".join(["obs", str(a), out, str(det), set_tok(wl) if text else "-", str(ln), show_rat(tm),
-                                   show_rat(cf), err] + [show_rat(x) for x in sds]))
+            if via_cell and tm == 0 and cf == 1 and err == "-":
+                lines.append(" ".join(["cexec", str(a), out, str(det), set_tok(wl) if text else "-", str(ln)]
+                                      + [show_rat(x) for x in sds]))
+                if rng.random() < 0.1:
+                    lines.append(f"cexec {a} fail {det} - 0 " + " ".join(show_rat(x) for x in sds))   # failing work: nothing recorded
+            else:
+                lines.append(" ".join(["obs", str(a), out, str(det), set_tok(wl) if text else "-", str(ln), show_rat(tm),
+                                       show_rat(cf), err] + [show_rat(x) for x in sds]))
 
         def emit_inspect():
             fp = fingerprint()
